@@ -68,7 +68,7 @@ theorem overfill_bal (cmp : K → K → Int) (id : Nat) (kvs : List (K × V)) (k
     · simp only [Occ, node_n, List.length_take, hall]; omega
     · simp only [Occ, node_n, List.length_take, List.length_drop, hall]; omega
   · subst ha hh
-    simp only [overfillNode]
+    simp only [overfillNode, extraChildPos_eq]
     have hak : (insertAt kids (lowerIdx amalgamLess cmp kv.1 kvs + 1) r).length = kids.length + 1 :=
       length_insertAt _ _ _
     have hmem : ∀ c ∈ insertAt kids (lowerIdx amalgamLess cmp kv.1 kvs + 1) r, Bal h' c ∧ Occ c := by
